@@ -1,10 +1,10 @@
 SPECIFICATION Spec
 CONSTANTS
-    GoodRates = {"0", "0.3", "0.7", "1"}
-    BadRates = {"-0.1", "1.1", "100", "NaN", "-Inf", "+Inf"}
+    GoodRates = {"0", "0.3", "0.7"}
+    BadRates = {}
     Sids = {"s1", "s2"}
-    Rids = {"r1", "r2"}
-    Window = 0
+    Rids = {}
+    Window = 2
     Mode = "mc"
     Depth = 0
 VIEW View
